@@ -5,6 +5,7 @@ import numpy as np
 from skgstat import Variogram
 
 from .common import quiet, all_close, gen_coords, gen_values
+from .common import guarded
 from . import c12
 
 INFO = dict(
@@ -32,6 +33,7 @@ def near_boundary(ang, off, case, bwv):
     return bool(near_tol or near_bw)
 
 
+@guarded
 def check_case(ctx, case):
     coords = np.array(case['coords'], float)
     values = np.array(case['values'], float)
@@ -89,7 +91,7 @@ def check_case(ctx, case):
     else:
         p = math.radians(phi)
         R = np.array([[math.cos(p), -math.sin(p)], [math.sin(p), math.cos(p)]])
-        rc = dict(case, coords=(coords @ R.T).tolist(), azimuth=az3)
+        rc = dict(case, coords=(coords @ R.T).tolist(), azimuth=az3, coord_dtype='float64')
         reg('rotation')
         o3 = obs(c12.build(rc))
         if not same(o3, o0, tol=1e-9):
